@@ -371,7 +371,7 @@ func typeAssert(n *node, withResult, withOk bool) {
 				var meth0 string
 				meth0, ok = m0[k]
 				if !ok {
-					return next
+					break
 				}
 				// As far as we know this equality check can fail because they are two ways to
 				// represent the signature of a method: one where the receiver appears before the
@@ -384,20 +384,26 @@ func typeAssert(n *node, withResult, withOk bool) {
 				tm := lookupFieldOrMethod(v.node.typ, k)
 				if tm == nil {
 					ok = false
-					return next
+					break
 				}
 
 				var err error
 				meth0, err = stripReceiverFromArgs(meth0)
 				if err != nil {
 					ok = false
-					return next
+					break
 				}
 
 				if meth0 != meth1 {
 					ok = false
-					return next
+					break
 				}
+			}
+			if !ok {
+				if !withOk {
+					panic(n.cfgErrorf("interface conversion: %v is not %v", v.node.typ.id(), typID))
+				}
+				return next
 			}
 
 			if withResult {
@@ -426,21 +432,20 @@ func typeAssert(n *node, withResult, withOk bool) {
 			if ok && val.node.typ.cat != valueT {
 				m0 := val.node.typ.methods()
 				m1 := typ.methods()
-				if len(m0) < len(m1) {
-					ok = false
-					return next
-				}
-
+				ok = len(m0) >= len(m1)
 				for k, meth1 := range m1 {
+					if !ok {
+						break
+					}
 					var meth0 string
 					meth0, ok = m0[k]
-					if !ok {
-						return next
+					ok = ok && meth0 == meth1
+				}
+				if !ok {
+					if !withOk {
+						panic(n.cfgErrorf("interface conversion: %s is not %s", val.node.typ.id(), rtype.String()))
 					}
-					if meth0 != meth1 {
-						ok = false
-						return next
-					}
+					return next
 				}
 
 				if withResult {
